@@ -126,3 +126,8 @@ V('C16', 'revert-fix-suppress-block-with-waiters', F,
 V('C16', 'nc-drop-guard-by-count-waiters', F, P + 'Pool._tick',
   'if not block.count_conns() and not nwaiters:',
   'if not block.count_conns() and not block.count_waiters():', None)
+
+# round 5: the stored seeded breaks this property's check reports, replayed as variants
+from sa.selftest import VP  # noqa
+VP('C16', 'C16-e1', 'C16.R1', 'conn_stack.append')
+VP('C16', 'C16-e3', 'C16.R10', 'free-capacity-serves-the-waitlist')
